@@ -751,6 +751,12 @@ func init() {
 					rawPrf = append(rawPrf, l)
 					prfs = append(prfs, delegation.FromLink(l))
 				}
+				if r.Intn(3) == 0 {
+					// the same proof cited twice (two proof sets concatenated by the issuer): the list is signed as given
+					l := rawPrf[r.Intn(len(rawPrf))]
+					rawPrf = append(rawPrf, l)
+					prfs = append(prfs, delegation.FromLink(l))
+				}
 				opts = append(opts, delegation.WithProof(prfs...))
 			}
 			var caps []ucan.Capability[ucan.CaveatBuilder]
